@@ -42,12 +42,19 @@ func (c *countingReader) Read(p []byte) (int, error) {
 // CID and the varint length for the block data).
 func CountingLinkSystem(ls ipld.LinkSystem) (ipld.LinkSystem, ReadCounter) {
 	c := counter{}
+	// Blocks are written once however often the traversal loads them (see TeeingLinkSystem),
+	// so they must be counted once too.
+	seen := make(map[string]struct{})
 	clc := ls
 	clc.StorageReadOpener = func(lc linking.LinkContext, l ipld.Link) (io.Reader, error) {
 		r, err := ls.StorageReadOpener(lc, l)
 		if err != nil {
 			return nil, err
 		}
+		if _, ok := seen[l.Binary()]; ok {
+			return r, nil
+		}
+		seen[l.Binary()] = struct{}{}
 		buf := bytes.NewBuffer(nil)
 		n, err := buf.ReadFrom(r)
 		if err != nil {
